@@ -536,3 +536,19 @@ package internal
 //@ func newGenerator
 //@   option props=[C13]
 //@   ensures [C02,C12] fresh-generator-has-empty-injective-id-tables: result != nil && $IDS(result.typeIDs, result.nextTypeID) && $IDS(result.predIDs, result.nextPredID)
+
+// ---------------------------------------------------------------------------
+// C13 / C17: import names. An import path that already has a name keeps it on
+// every later lookup (otherwise two references to one added import could use
+// two names, one of them not imported); a new path gets a name no other import
+// of the file uses, and the choice is recorded.
+//@ macro BASE = pure("path/filepath.Base", importPath)
+//@ macro RECORDED = ite(mval("map[string]string", addImports, importPath) == "", $BASE, mval("map[string]string", addImports, importPath))
+
+//@ func printImportAlias
+//@   option props=[C13]
+//@   requires addImports != nil && aliases != nil
+//@   requires a-package-name-is-not-empty: alias != ""
+//@   loop 1 invariant [C13,C17] nothing-recorded-while-searching-for-a-free-name: alias != "" && !mhas("map[string]string", addImports, importPath) && forall(k, int, mhas("map[string]struct{}", aliases, k) == old(mhas("map[string]struct{}", aliases, k))) && forall(k, int, mhas("map[string]string", addImports, k) == old(mhas("map[string]string", addImports, k)))
+//@   ensures [C13,C17] an-import-that-has-a-name-keeps-it: implies(old(mhas("map[string]string", addImports, importPath)), result == old($RECORDED) && forall(k, int, mhas("map[string]struct{}", aliases, k) == old(mhas("map[string]struct{}", aliases, k))))
+//@   ensures [C13,C17] a-new-import-gets-an-unused-name-which-is-recorded: implies(!old(mhas("map[string]string", addImports, importPath)), !old(mhas("map[string]struct{}", aliases, result)) && mhas("map[string]struct{}", aliases, result) && mhas("map[string]string", addImports, importPath) && result == $RECORDED)
